@@ -8,9 +8,9 @@ package simnet
 
 import (
 	"encoding/json"
-	"strings"
 	"fmt"
 	"sort"
+	"strings"
 	"time"
 
 	"cosmossdk.io/math"
